@@ -130,6 +130,7 @@ type FnVC struct {
 	allocPos map[token.Pos]*ssa.Alloc
 	safetyAssumed int
 	behavClause bool
+	symHeaps map[string]bool // non-nil while the body of a recursive spec function is translated
 	localSorts map[string]string
 	localTypes map[string]types.Type
 	localNames map[string]string
@@ -169,6 +170,10 @@ func (v *FnVC) heapSort(key string) string {
 }
 
 func (v *FnVC) get(key string) string {
+	if v.symHeaps != nil && !strings.HasPrefix(key, "L:") {
+		v.symHeaps[key] = true
+		return "|H!" + sanitize(key) + "|"
+	}
 	if t, ok := v.st[key]; ok {
 		return t
 	}
@@ -517,11 +522,11 @@ func (v *FnVC) load(p *Place, pos token.Pos) string {
 	case "field":
 		return v.loadRef(p.Base.S, p.ST, p.SName, p.Field)
 	case "elem":
-		key := v.elemKey(p.Typ)
-		return fmt.Sprintf("(select (select %s (sl_ref %s)) (idx %s %s))", v.get(key), p.Base.S, p.Base.S, p.Idx)
+		key := v.elemKey(p.elemType())
+		return v.project(fmt.Sprintf("(select (select %s (sl_ref %s)) (idx %s %s))", v.get(key), p.Base.S, p.Base.S, p.Idx), p)
 	case "arrelem":
-		key := v.elemKey(p.Typ)
-		return fmt.Sprintf("(select (select %s %s) %s)", v.get(key), p.Base.S, p.Idx)
+		key := v.elemKey(p.elemType())
+		return v.project(fmt.Sprintf("(select (select %s %s) %s)", v.get(key), p.Base.S, p.Idx), p)
 	case "cell":
 		if st, ok := p.Typ.Underlying().(*types.Struct); ok {
 			return v.loadStruct(p.Base.S, st, structName(p.Typ), p.Typ)
@@ -610,13 +615,25 @@ func (v *FnVC) store(p *Place, val string, pos token.Pos) {
 	case "field":
 		v.storeRef(p.Base.S, p.ST, p.SName, p.Field, val)
 	case "elem":
-		key := v.elemKey(p.Typ)
+		key := v.elemKey(p.elemType())
 		h := v.get(key)
 		ref := fmt.Sprintf("(sl_ref %s)", p.Base.S)
+		if len(p.Path) > 0 {
+			old := fmt.Sprintf("(select (select %s %s) (idx %s %s))", h, ref, p.Base.S, p.Idx)
+			q := *p
+			q.Idx = ""
+			val = v.updatePath(old, &q, 0, val)
+		}
 		v.set(key, v.heapSort(key), fmt.Sprintf("(store %s %s (store (select %s %s) (idx %s %s) %s))", h, ref, h, ref, p.Base.S, p.Idx, val))
 	case "arrelem":
-		key := v.elemKey(p.Typ)
+		key := v.elemKey(p.elemType())
 		h := v.get(key)
+		if len(p.Path) > 0 {
+			old := fmt.Sprintf("(select (select %s %s) %s)", h, p.Base.S, p.Idx)
+			q := *p
+			q.Idx = ""
+			val = v.updatePath(old, &q, 0, val)
+		}
 		v.set(key, v.heapSort(key), fmt.Sprintf("(store %s %s (store (select %s %s) %s %s))", h, p.Base.S, h, p.Base.S, p.Idx, val))
 	case "cell":
 		if st, ok := p.Typ.Underlying().(*types.Struct); ok {
@@ -637,6 +654,24 @@ func (v *FnVC) store(p *Place, val string, pos token.Pos) {
 	default:
 		panic("store: bad place " + p.Kind)
 	}
+}
+
+// elemType: the element type of the slice/array an elem place points into.
+func (p *Place) elemType() types.Type {
+	if len(p.PathT) > 0 {
+		return p.PathT[0]
+	}
+	return p.Typ
+}
+
+// project applies the field path of an element place to the element value.
+func (v *FnVC) project(t string, p *Place) string {
+	for i, f := range p.Path {
+		pt := p.PathT[i]
+		st := pt.Underlying().(*types.Struct)
+		t = fmt.Sprintf("(%s %s)", fieldAcc(v.sortOf(pt), st.Field(f).Name(), f), t)
+	}
+	return t
 }
 
 // updatePath rebuilds a struct-valued local with one nested field replaced.
